@@ -11,7 +11,8 @@ beats=, beats_per_bar=, yield d} executed by one routine on the clock; after
 every operation the (beats, seconds) pair, the conversions, the bar lines and
 the quantisation grid are compared with the reference.  A second history
 system adds quantised play() of probe routines that are still pending while
-the map is changed.
+the map is changed, a third one a second routine ("player") that resumes
+every delta beats on the clock while the first routine changes the map.
 
 A case is plain JSON; the whole program is re-executed from `main.reset()`
 and a fresh TempoClock for every evaluation (clocks live only inside
@@ -44,7 +45,8 @@ def execute(prog):
     """Run `prog` on a fresh TempoClock in NRT mode and return the
     observation log (plain data).
 
-    prog = {'tempo': T0, 'ops': [op...], 'final': {...}}
+    prog = {'tempo': T0, 'ops': [op...], 'final': {...},
+            'player': {'delta': d, 'count': n} | absent}
     op   = ['yield', d] | ['tempo', v] | ['etempo', v] | ['beats', v] |
            ['bpb', v] | ['spawn', q, ph]
     final = {'conv_beats': [...], 'conv_secs': [...], 'bar_beats': [...],
@@ -57,7 +59,8 @@ def execute(prog):
 
     main.reset()
     log = {'steps': [], 'spawned': {}, 'final': None, 'wakes': {},
-           'budget': False}
+           'budget': False, 'events': []}
+    player = prog.get('player')
     ops = prog['ops']
     fin = prog.get('final') or {}
     clock = TempoClock(prog['tempo'])
@@ -78,6 +81,22 @@ def execute(prog):
             if tag not in log['wakes']:
                 log['wakes'][tag] = rd(c)
         return probe
+
+    def player_fn(inval):
+        # second routine on the same clock: resumes every `delta` beats
+        # while the first routine performs the history
+        _, c = inval
+        k = 0
+        while True:
+            wake_count[0] += 1
+            if wake_count[0] > WAKE_LIMIT:
+                log['budget'] = True
+                return
+            log['events'].append(['p', k] + rd(c))
+            if k >= player['count']:
+                return
+            k += 1
+            yield player['delta']
 
     def snapshot(c):
         s = {}
@@ -128,6 +147,8 @@ def execute(prog):
     def body(inval):
         rout, c = inval
         log['start'] = rd(c)
+        if player:
+            Routine(player_fn).play(c, 0)
         for i, op in enumerate(ops):
             wake_count[0] += 1
             if wake_count[0] > WAKE_LIMIT:
@@ -159,6 +180,7 @@ def execute(prog):
             except Exception as e:
                 err = [type(e).__name__, str(e)[:80]]
             log['steps'].append([i, pre, rd(c), err])
+            log['events'].append(['c', i])
         log['final'] = snapshot(c)
         for j, (q, ph) in enumerate(fin.get('play', ())):
             try:
@@ -175,7 +197,7 @@ def execute(prog):
     except Exception as e:
         log['process_error'] = [type(e).__name__, str(e)[:120]]
     main.reset()
-    del r, clock, body, snapshot, mk_probe
+    del r, clock, body, snapshot, mk_probe, player_fn
     log['leaked_clocks'] = len(TempoClock.all)
     if log['leaked_clocks']:
         gc.collect()
@@ -198,6 +220,8 @@ class Judge:
         nums = [prog['tempo']]
         for op in prog['ops']:
             nums += op[1:]
+        if prog.get('player'):
+            nums.append(prog['player']['delta'])
         self.tempos = [prog['tempo']] + [op[1] for op in prog['ops']
                                          if op[0] in ('tempo', 'etempo')]
         self.exact = all(ref.is_pow2(t) for t in self.tempos) and \
@@ -274,7 +298,18 @@ class Judge:
         wake_beat = a.B       # beat at which the routine last woke up
         pend = {}             # spawned probes: tag -> [expected beat, open]
         steps = {s[0]: s for s in log['steps']}
+        # player resumptions, grouped by the operation of the first routine
+        # they precede in execution order (n = after the last one)
+        pl = {'k': 0, 'dc': False}
+        pev = {}
+        nxt = 0
+        for ev in log.get('events', ()):
+            if ev[0] == 'c':
+                nxt = ev[1] + 1
+            else:
+                pev.setdefault(nxt, []).append(ev)
         for i, op in enumerate(prog['ops']):
+            self.player(pev.get(i, ()), a, pl, i)
             s = steps.get(i)
             if s is None:
                 self.add('step-missing', op, None,
@@ -320,6 +355,7 @@ class Judge:
             elif k == 'beats':
                 a.set_beats(op[1])
                 beats_set = True
+                pl['dc'] = True
                 if not self.pair('beats-set-pair', post, a.B, a.S,
                                  'after beats = v the current beat is v '
                                  'and the second is unchanged', i):
@@ -349,13 +385,49 @@ class Judge:
                     p['beats_changed'] = True
         self.final(log, a, m, n)
         self.pending(log, a, m, pend, n)
+        self.player(pev.get(n, ()), a, pl, n)
+        pp = prog.get('player')
+        if pp and not pl['dc'] and pl['k'] != pp['count'] + 1:
+            self.add('player-resumptions-missing', pp['count'] + 1, pl['k'],
+                     'number of wake-ups of the second routine', n)
         # the reference state (part of the history engine's state key)
         self.model = [str(x) for x in (a.T, a.B, a.S, a.aB, a.aS, m.b0,
                                        m.bpb)] + [
-            beats_set, str(wake_beat) if beats_set else None] + [
+            beats_set, str(wake_beat) if beats_set else None,
+            pl['dc']] + [
             [t, str(p['beat']), p['tempo_changed'], p['beats_changed']]
             for t, p in sorted(pend.items())]
         return self.dis
+
+    def player(self, evs, a, pl, step):
+        """The second routine was played at beat 0 with quant 0 and yields
+        `delta` each time: its k-th resumption is at beat k*delta and at the
+        second the map in force at that moment gives for that beat.  After
+        a `beats =` of the first routine the statement does not decide where
+        pending tasks go: accepted from then on."""
+        pp = self.prog.get('player')
+        for ev in evs:
+            if pl['dc']:
+                continue
+            _, k, b, sec = ev
+            if k != pl['k']:
+                self.add('player-resumption-order', pl['k'], k, '', step)
+                pl['dc'] = True
+                continue
+            pl['k'] += 1
+            eb = ref.frac(pp['delta']) * k
+            if not self.close(b, eb):
+                self.add('player-resume-beat', [eb, a.secs_at(eb)], [b, sec],
+                         f'resumption {k} of a routine yielding '
+                         f'{pp["delta"]} beats on the clock while another '
+                         f'routine changes the tempo (tempo now {a.T})',
+                         step)
+                pl['dc'] = True
+            elif not self.close(sec, a.secs_at(eb)):
+                self.add('player-resume-seconds', [eb, a.secs_at(eb)],
+                         [b, sec], f'resumption {k}; map in force: beats = '
+                         f'{a.aB} + {a.T}*(s - {a.aS})', step)
+                pl['dc'] = True
 
     def pending(self, log, a, m, pend, n):
         """Probes spawned by a ['spawn', q, ph] operation wake at the beat
@@ -692,6 +764,7 @@ class AffineSys:
     histories that are merged have the same futures and the same counts."""
 
     spawn = False
+    final = FINAL_E2
 
     def __init__(self, params):
         self.params = params
@@ -715,7 +788,9 @@ class AffineSys:
     def apply(self, op):
         self.hist.append(op)
         prog = {'tempo': self.params['tempo'], 'ops': list(self.hist),
-                'final': FINAL_E2}
+                'final': self.final}
+        if self.params.get('player'):
+            prog['player'] = self.params['player']
         dis, self.log = check_prog(prog, last_only=True, memo=True)
         self.last_kinds = sorted(set(d[0] for d in dis))
         return dis
@@ -730,6 +805,9 @@ class AffineSys:
             k.append([h for h in self.hist if h[0] == 'spawn'])
             k.append(self.log.get('spawned') if self.log else None)
             k.append(sorted((self.log or {}).get('wakes', {}).items()))
+        if self.params.get('player'):
+            k.append([e for e in (self.log or {}).get('events', ())
+                      if e[0] == 'p'])
         k.append(self._beats_set_since_wake())
         # reference state, verdict of the last step and the non-trivial
         # flag: merged histories must agree on them, so that the counts do
@@ -780,7 +858,16 @@ class PendingSys(AffineSys):
     spawn = True
 
 
-SYSTEMS = {'affine': AffineSys, 'pending': PendingSys}
+class PlayerSys(AffineSys):
+    """A second routine (params['player']) is played on the clock at beat 0
+    and resumes every `delta` beats while the first routine performs the
+    history; all its resumptions (during and after the history) are part of
+    the state key."""
+    final = {'conv_beats': [0], 'conv_secs': [0.75], 'bar_beats': [2.0],
+             'bars': [1], 'ntog': [[1, 0, None]], 'play': [[1, 0]]}
+
+
+SYSTEMS = {'affine': AffineSys, 'pending': PendingSys, 'player': PlayerSys}
 
 
 def replay(job):
@@ -829,6 +916,14 @@ PEND_T = {'tempo': 1.0, 'deltas': [0.5, 1.0, 2.25], 'tempos': [2.0, 0.5],
           'quants': [[4, 0], [1.5, 0.5], [1, -0.25]], 'max_spawn': 2}
 
 
+PLAY_Q = {'tempo': 1.0, 'deltas': [0.5, 1.0], 'tempos': [2.0, 0.5],
+          'etempos': [4.0], 'beats': [2.5], 'bpbs': [],
+          'player': {'delta': 1.0, 'count': 8}}
+PLAY_T = {'tempo': 1.0, 'deltas': [0.5, 1.0, 2.25], 'tempos': [2.0, 0.5, 3.0],
+          'etempos': [4.0], 'beats': [2.5, 0.0], 'bpbs': [3.0],
+          'player': {'delta': 0.75, 'count': 20}}
+
+
 def main(ctx):
     ctx.rule = (
         'E1: full product grid (tempo x meter change (beat, beats_per_bar) '
@@ -845,7 +940,10 @@ def main(ctx):
         'quant)]} executed by one routine on the clock, states merged on '
         'the eight map/meter fields of the clock plus the current '
         '(beats, seconds); non-trivial = a re-basing operation happens '
-        'after a yield or two happen at one instant.')
+        'after a yield or two happen at one instant.  The player system '
+        'runs a second routine on the same clock that yields a fixed delta '
+        'while the first performs the history; every resumption must be at '
+        'beat k*delta and at the second the map in force gives for it.')
     ctx.assumptions += [
         'reference mc/oracles/tempo_ref.py: affine map, quantisation grid '
         'and bar lines over Fractions, written from the property statement',
@@ -856,7 +954,8 @@ def main(ctx):
         'the reference beat is accepted',
         'don\'t-cares: where a routine wakes after it has set beats= itself '
         '(only required to lie on the affine map); where probes that were '
-        'pending during a beats= change wake; bar *numbers* (only bar lines '
+        'or a second routine that were pending during a beats= change '
+        'wake; bar *numbers* (only bar lines '
         'and the inverse laws are checked); constructor arguments beats/'
         'seconds; negative tempo via etempo; quant < 0',
         'NRT mode only: elapsed time equals logical time, so etempo() is '
@@ -865,11 +964,12 @@ def main(ctx):
     if ctx.tier == 'quick':
         grid, nsh = GRID_Q, 64
         e2 = [('affine', AFF_Q, 5), ('affine', AFF_3, 5),
-              ('pending', PEND_Q, 5)]
+              ('pending', PEND_Q, 5), ('player', PLAY_Q, 5)]
     else:
         grid, nsh = GRID_T, 256
         e2 = [('affine', AFF_T, 6), ('affine', AFF_3, 7),
-              ('pending', PEND_T, 5)]
+              ('pending', PEND_T, 5), ('player', PLAY_Q, 6),
+              ('player', PLAY_T, 5)]
     ctx.bounds['grid_alphabet'] = {k: (v if len(v) < 12 else
                               f'{v[0]}..{v[-1]} step 0.25 ({len(v)})')
                           for k, v in grid.items()}
